@@ -4,9 +4,12 @@ import json, os, re, shutil, subprocess, sys, time, hashlib
 
 VERIF = os.path.dirname(os.path.dirname(os.path.abspath(__file__)))
 SPEC = os.path.join(VERIF, "spec")
-HARNESS = os.path.join(VERIF, "harness")
+# development only: a copy of harness/ whose Cargo.toml points at a scratch worktree of /repo (seeded changes are
+# then tried without touching /repo); the registered commands never set it
+HARNESS = os.environ.get("VERIF_HARNESS_DIR") or os.path.join(VERIF, "harness")
 JVH = os.path.join(HARNESS, "target", "debug", "jvh")
-EVID = os.path.join(VERIF, "evidence")
+# seeded-change sweeps redirect their evidence and replay files so that /verif/evidence keeps the clean tree's
+EVID = os.environ.get("VERIF_EVIDENCE_DIR") or os.path.join(VERIF, "evidence")
 REPLAYS = os.path.join(EVID, "replays")
 NCPU = os.cpu_count() or 4
 
@@ -79,7 +82,7 @@ def _tlc(module, cfg, workers, extra_env=None, extra_args=(), timeout=3600, dfs=
         env.update(extra_env)
     cmd = ["tlc", "-workers", str(workers), "-metadir", md, "-cleanup", "-noGenerateSpecTE"]
     if simulate:
-        cmd += ["-simulate", simulate]
+        cmd += ["-simulate", simulate, "-depth", "400", "-seed", str(os.environ.get("VERIF_SEED") or 1)]
     cmd += list(extra_args)
     if os.path.isabs(module):
         # a generated instantiation module (constants) outside /verif/spec
@@ -143,10 +146,10 @@ def tlc_stats(out):
     return int(m.group(2)), int(m.group(1))  # distinct states, transitions(generated)
 
 
-def tlc_mc(module, cfg, workers=None, timeout=3600, constants_env=None, xmx=None):
+def tlc_mc(module, cfg, workers=None, timeout=3600, constants_env=None, xmx=None, coverage=True):
     """Exhaustive model checking.  Returns dict(states, transitions, ok, violated, out)."""
     out = _tlc(module, cfg, workers or min(NCPU, 12), extra_env=constants_env, timeout=timeout,
-               extra_args=["-coverage", "1"], xmx=xmx)
+               extra_args=["-coverage", "1"] if coverage else [], xmx=xmx)
     states, trans = tlc_stats(out)
     violated = re.findall(r"Error: (?:Invariant|Action property|Temporal properties?) ?(\S*) (?:is|was|were) violated", out)
     err = "Error:" in out
